@@ -785,6 +785,14 @@ func chunkSegment(init *mp4.InitSegment, seg *mp4.MediaSegment, segMeta segMeta,
 	chunks := make([]chunk, 0, segMeta.newDur/uint32(chunkDur))
 	trackID := init.Moov.Trak.Tkhd.TrackID
 	ch := createChunk(seg.Styp, trackID, segMeta.newNr)
+	for _, f := range seg.Fragments {
+		// Event messages (SCTE-35) announce something ahead and go out with the first chunk
+		for _, c := range f.Children {
+			if emsg, ok := c.(*mp4.EmsgBox); ok {
+				ch.frag.AddEmsg(emsg)
+			}
+		}
+	}
 	chunkNr := 1
 	var accChunkDur uint32 = 0
 	var totalDur = 0
